@@ -1575,10 +1575,43 @@ class DepGraph(object):
     Deliberately coarse: names are global over the project, any same-named function and any same-named field are
     merged, containers are index-insensitive.  Fields are kept apart by name (o.f never feeds o.g)."""
 
-    def __init__(self, facts):
+    def __init__(self, facts, relax=()):
+        """relax: named weakenings of the reference reading, used only to NAME why an unjustified flow was reported:
+        'call'   = a call statement taints everything it defines (result, receiver, objects the callee writes to)
+                   from any of its arguments, whatever the resolved callee does;
+        'object' = storing into a field taints the whole object, so every other field read of it is tainted."""
         self.facts = facts
+        self.relax = set(relax)
         self.edges = {}
-        self.funcs = {}          # name -> [(param names, is method)]
+        self.funcs = {}          # name -> [param names]
+        self.side = {}           # function name -> root names its body stores through
+        for fn, tree in facts.trees.items():
+            for node in ast.walk(tree):
+                if isinstance(node, (ast.FunctionDef, ast.AsyncFunctionDef)):
+                    roots = self.side.setdefault(node.name, set())
+                    for st in ast.walk(node):
+                        if isinstance(st, ast.Assign):
+                            for t in st.targets:
+                                if isinstance(t, (ast.Attribute, ast.Subscript)):
+                                    r = self.root(t.value)
+                                    if r and r != "self":
+                                        roots.add(r)
+                        elif isinstance(st, ast.Call) and isinstance(st.func, ast.Attribute):
+                            r = self.root(st.func.value)
+                            if r and r != "self":
+                                roots.add(r)
+                        elif isinstance(st, ast.Call) and isinstance(st.func, ast.Name):
+                            roots.add("call:" + st.func.id)
+        changed = True
+        while changed:          # callees of callees
+            changed = False
+            for name, roots in self.side.items():
+                for r in list(roots):
+                    if r.startswith("call:"):
+                        extra = self.side.get(r[5:], set()) - roots
+                        if extra:
+                            roots |= extra
+                            changed = True
         for fn, tree in facts.trees.items():
             for node in ast.walk(tree):
                 if isinstance(node, (ast.FunctionDef, ast.AsyncFunctionDef)):
@@ -1653,22 +1686,36 @@ class DepGraph(object):
         D, C = set(), set()
         fname = e.func.id if isinstance(e.func, ast.Name) else (e.func.attr if isinstance(e.func, ast.Attribute) else None)
         args = list(e.args) + [k.value for k in e.keywords]
-        arg_states = [self.expr(a) for a in args]
+        arg_states = []
+        arg_nodes = []
+        for a in args:
+            d, c = self.expr(a)
+            if isinstance(a, ast.Name):
+                node = "v:" + a.id
+            else:
+                # the temporary that holds the argument value
+                node = "t:%d:%d" % (getattr(a, "lineno", 0), getattr(a, "col_offset", 0))
+                self.flow(d, (node, "D"))
+                self.flow(c, (node, "C"))
+                d, c = d | {(node, "D")}, c | {(node, "C")}
+            arg_states.append((d, c))
+            arg_nodes.append(node)
         recv = e.func.value if isinstance(e.func, ast.Attribute) else None
         rd, rc = self.expr(recv) if recv is not None else (set(), set())
         known = fname in self.funcs or fname in self.classes
         if fname in self.funcs:
             for params in self.funcs[fname]:
                 for p in params:
-                    for d, c in arg_states:
+                    for (d, c), node in zip(arg_states, arg_nodes):
                         self.flow(d, ("v:" + p, "D"))
                         self.flow(c, ("v:" + p, "C"))
+                        # the parameter and the caller's argument are the same value / object
+                        self.edge(("v:" + p, "D"), (node, "D"))
+                        self.edge(("v:" + p, "C"), (node, "C"))
                     if recv is not None:
                         self.flow(rd, ("v:" + p, "D"))
                         self.flow(rc, ("v:" + p, "C"))
-                    # the callee may store into an object it was given: the caller's argument holds it too
-                    for a in args + ([recv] if recv is not None else []):
-                        r = self.root(a)
+                        r = self.root(recv)
                         if r:
                             self.edge(("v:" + p, "C"), ("v:" + r, "C"))
             D.add(("ret:" + fname, "D"))
@@ -1677,12 +1724,14 @@ class DepGraph(object):
             for st in ast.walk(self.classes[fname]):
                 if isinstance(st, ast.FunctionDef) and st.name == "__init__":
                     for a in st.args.args:
-                        for d, c in arg_states:
+                        for (d, c), node in zip(arg_states, arg_nodes):
                             self.flow(d, ("v:" + a.arg, "D"))
                             self.flow(c, ("v:" + a.arg, "C"))
+                            self.edge(("v:" + a.arg, "D"), (node, "D"))
+                            self.edge(("v:" + a.arg, "C"), (node, "C"))
             for d, c in arg_states:
                 C |= d | c
-        if not known:
+        if not known or "call" in self.relax:
             for d, c in arg_states:
                 D |= d | c
             D |= rd | rc
@@ -1690,7 +1739,15 @@ class DepGraph(object):
             r = self.root(recv)
             if r:
                 for d, c in arg_states:
-                    self.flow(d | c, ("v:" + r, "C"))
+                    self.flow(d | c, ("v:" + r, "D" if "call" in self.relax else "C"))
+        if "call" in self.relax and fname is not None:
+            names = [fname] + (["__init__"] if fname in self.classes else [])
+            for nm in names:
+                for r in self.side.get(nm, ()):
+                    if not r.startswith("call:"):
+                        for d, c in arg_states:
+                            self.flow(d | c, ("v:" + r, "D"))
+                        self.flow(rd | rc, ("v:" + r, "D"))
         return D, C
 
     def assign(self, target, D, C, value=None):
@@ -1713,7 +1770,7 @@ class DepGraph(object):
                 self.flow(C, (pre + target.attr, "C"))
             r = self.root(target.value)
             if r:
-                self.flow(D | C, ("v:" + r, "C"))
+                self.flow(D | C, ("v:" + r, "D" if "object" in self.relax else "C"))
         elif isinstance(target, ast.Subscript):
             r = self.root(target.value)
             if r:
